@@ -302,13 +302,23 @@ impl Version {
         is_tombstone: &mut bool,
     ) -> Result<Option<Vec<u8>>, SError> {
         *is_tombstone = false;
-        let mut level0 = self.levels[0].ssts.clone();
-        level0.sort_by_key(|md| md.biggest_timestamp);
-        for l0 in level0.into_iter().rev() {
-            let ret = self.load_from_sst(fm, sc, &l0, key, timestamp, is_tombstone)?;
-            if ret.is_some() || *is_tombstone {
-                return Ok(ret);
+        // Level 0 files may overlap in time as well as in keys (recovery puts every set of files
+        // it cannot order there), so the newest version wins, not the newest file.
+        let mut newest: Option<(u64, Option<Vec<u8>>)> = None;
+        for l0 in self.levels[0].ssts.iter() {
+            if key < l0.first_key.as_slice() || key > l0.last_key.as_slice() {
+                continue;
             }
+            let sst = self.open_sst(fm, sc, l0)?;
+            if let Some((ts, value)) = sst.load_versioned(key, timestamp)? {
+                if newest.as_ref().map(|(t, _)| ts > *t).unwrap_or(true) {
+                    newest = Some((ts, value));
+                }
+            }
+        }
+        if let Some((_, value)) = newest {
+            *is_tombstone = value.is_none();
+            return Ok(value);
         }
         for level in self.levels[1..].iter() {
             let lower_bound = level.lower_bound(key);
@@ -332,9 +342,19 @@ impl Version {
         timestamp: u64,
         is_tombstone: &mut bool,
     ) -> Result<Option<Vec<u8>>, SError> {
+        let sst = self.open_sst(fm, sc, md)?;
+        sst.load(key, timestamp, is_tombstone)
+    }
+
+    fn open_sst(
+        &self,
+        fm: &FileManager,
+        sc: &LeastRecentlyUsedCache<Setsum, CachedSst>,
+        md: &SstMetadata,
+    ) -> Result<Arc<Sst>, SError> {
         let setsum = Setsum::from_digest(md.setsum);
-        let sst = if let Some(sst) = sc.lookup(&setsum) {
-            sst.ptr
+        if let Some(sst) = sc.lookup(&setsum) {
+            Ok(sst.ptr)
         } else {
             let sst_path = SST_FILE(&self.options.path, setsum);
             let file = fm.open(sst_path)?;
@@ -345,9 +365,8 @@ impl Version {
                     ptr: Arc::clone(&sst),
                 },
             );
-            sst
-        };
-        sst.load(key, timestamp, is_tombstone)
+            Ok(sst)
+        }
     }
 
     fn range_scan<T: AsRef<[u8]>>(
@@ -726,11 +745,29 @@ impl Version {
                 .min_by(|lhs, rhs| lhs.biggest_timestamp.cmp(&rhs.biggest_timestamp))
                 .unwrap();
             FIND_TRIVIAL_MOVE_LEVEL0.click();
+            // The oldest file may only sink alone if nothing that stays behind in level 0 holds
+            // versions as old as its own for the same keys; otherwise they must be merged.
+            if self.levels[0].ssts.iter().any(|other| {
+                !Arc::ptr_eq(other, sst)
+                    && other.first_key <= sst.last_key
+                    && sst.first_key <= other.last_key
+                    && other.smallest_timestamp <= sst.biggest_timestamp
+            }) {
+                return (None, i64::MIN);
+            }
             return self.find_trivial_move_for_one_sst(compaction_id, level, sst);
         } else {
             FIND_TRIVIAL_MOVE_LEVELN.click();
-            for sst in self.levels[level].ssts.iter() {
+            for (idx, sst) in self.levels[level].ssts.iter().enumerate() {
                 FIND_TRIVIAL_MOVE_SST.click();
+                // The versions of one key may be split across adjacent files of a level, newest
+                // first.  The file with the newer versions must not sink below its successor.
+                if self.levels[level].ssts[idx + 1..]
+                    .iter()
+                    .any(|next| next.first_key <= sst.last_key)
+                {
+                    continue;
+                }
                 if let (Some(compaction), score) =
                     self.find_trivial_move_for_one_sst(compaction_id, level, sst)
                 {
